@@ -230,6 +230,11 @@ func orchMain() int {
 	var reports []reported
 	seen := map[string]bool{}
 	os.MkdirAll(filepath.Join(verifRoot, "replays"), 0755)
+	if old, _ := filepath.Glob(filepath.Join(verifRoot, "replays", prop+"-*.json")); old != nil {
+		for _, f := range old {
+			os.Remove(f)
+		}
+	}
 	for _, v := range viols {
 		if seen[v.Sig] {
 			continue
